@@ -279,6 +279,9 @@ struct Scenario {
                     if (!threw) sim::violation("stale-unsubscribe-accepted", "Subject::unsubscribe accepted a moved-from handle");
                     *handles[y] = std::move(tmp);
                     if (!handles[y]->isValid()) sim::violation("fresh-handle-invalid", "handle invalid after being moved back");
+                    Sub& same = *handles[y];
+                    *handles[y] = std::move(same);   // self-move-assignment must leave a live handle alone
+                    if (!handles[y]->isValid()) sim::violation("fresh-handle-invalid", "a live handle is invalid after being move-assigned to itself");
                 }
             } else if (o == "foreign") {
                 Sub f = other->subscribe([](Args...) {});
